@@ -383,6 +383,12 @@ where
             .store()
             .subslice_utf8_offset(self.text())
             .expect("subslice should succeed");
+        if abscursor > self.textlen() {
+            return Err(StamError::CursorOutOfBounds(
+                Cursor::BeginAligned(abscursor),
+                "utf8byte(): cursor is beyond the text selection",
+            ));
+        }
         Ok(self.store().utf8byte(self.absolute_cursor(abscursor))? - beginbyte)
     }
 
@@ -394,6 +400,12 @@ where
             .store()
             .subslice_utf8_offset(self.text())
             .expect("subslice should succeed");
+        if bytecursor > self.text().len() {
+            return Err(StamError::CursorOutOfBounds(
+                Cursor::BeginAligned(bytecursor),
+                "utf8byte_to_charpos(): byte is beyond the text selection",
+            ));
+        }
         Ok(self.store().utf8byte_to_charpos(beginbyte + bytecursor)? - self.begin())
     }
 
@@ -572,6 +584,12 @@ where
             .store()
             .subslice_utf8_offset(self.text())
             .expect("subslice should succeed");
+        if abscursor > self.textlen() {
+            return Err(StamError::CursorOutOfBounds(
+                Cursor::BeginAligned(abscursor),
+                "utf8byte(): cursor is beyond the text selection",
+            ));
+        }
         Ok(self.store().utf8byte(self.absolute_cursor(abscursor))? - beginbyte)
     }
 
@@ -583,6 +601,12 @@ where
             .store()
             .subslice_utf8_offset(self.text())
             .expect("subslice should succeed");
+        if bytecursor > self.text().len() {
+            return Err(StamError::CursorOutOfBounds(
+                Cursor::BeginAligned(bytecursor),
+                "utf8byte_to_charpos(): byte is beyond the text selection",
+            ));
+        }
         Ok(self.store().utf8byte_to_charpos(beginbyte + bytecursor)? - self.begin())
     }
 
